@@ -356,6 +356,11 @@ def install(cfg, logpath):
     bob.builder.hashDirectory = _wrap_point("builder.hashDirectory", bob.utils.hashDirectory)
     bob.invoker.emptyDirectory = _wrap_point("invoker.emptyDirectory", bob.utils.emptyDirectory)
     bob.utils.replacePath = _wrap_point("utils.replacePath", rp)
+    hook = cfg.get("pre_hook")
+    if hook:
+        import importlib
+        mod, _, fn = hook.partition(":")
+        getattr(importlib.import_module(mod), fn)()
     from tempfile import _RandomNameSequence
     import tempfile
     ns = _RandomNameSequence()
